@@ -155,7 +155,9 @@ func (f Filter) filterMapCandidatesByNamespace(
 	if err != nil {
 		return nil, errors.WrapPrefixf(err, "trying to match 'namespace' field")
 	}
-	if namespaceNode == nil {
+	if yaml.IsMissingOrNull(namespaceNode) || namespaceNode.YNode().Value == "" {
+		// No namespace, or an empty one: the reference names no namespace
+		// (the empty string is a wild card, see setMapping).
 		return f.ReferralCandidates.Resources(), nil
 	}
 	namespace := namespaceNode.YNode().Value
